@@ -58,7 +58,9 @@ func derivesFromGlobal(v ssa.Value, pkg, name string) bool {
 
 func runC07(c *Ctx, w *World, r *Report) {
 	pbNames := dropMissingHelpers(w, pbcmplFuncs, "pbcmpl.marshal")
-	fns, ok := requireFuncs(w, r, pbNames...)
+	// what Unmarshal/ReadHeader hand arbitrary header bytes to: the accessors and the version decoder
+	accNames := dropMissingHelpers(w, []string{"pbcmpl.(*headerInfo).GetVersion", "pbcmpl.(*headerInfo).GetHeaderSize", "pbcmpl.(*headerInfo).GetBodySize", "pbcmpl.verStr"}, "pbcmpl.verStr")
+	fns, ok := requireFuncs(w, r, append(append([]string{}, pbNames...), accNames...)...)
 	if g := w.Global("pbcmpl", "ErrInvalidHeaderSize"); g == nil {
 		r.Unknown("R-ANCHOR", "pbcmpl.ErrInvalidHeaderSize", "-", "error variable named by the property is missing")
 	}
@@ -72,6 +74,21 @@ func runC07(c *Ctx, w *World, r *Report) {
 	}
 	r.Rule("R-TAINT", "an integer taken from the input header (GetBodySize/GetHeaderSize, header.BodySize/HeaderSize) may reach an allocation size, slice bound or index only if on every path it is bounded below by 0 and above by a constant or an untainted value; io.CopyN/LimitReader, comparisons and arithmetic are not sinks")
 	r.Rule("R-GATE", "Unmarshal reads the body only on the edge GetHeaderSize() == fixedSize; the other edge returns (an error derived from) ErrInvalidHeaderSize; the decode call is dominated by the success edges of both reads and decodes exactly the bytes the body read filled")
+	r.Rule("R-FIELD", "the size accessors that the gates of Unmarshal consult return the header's own field, unchanged, on every path: GetHeaderSize the HeaderSize field, GetBodySize the BodySize field. A default, clamp or translation inside the accessor makes a corrupt field pass the header-size gate (no ErrInvalidHeaderSize) or changes how many bytes are taken for the body")
+	for _, acc := range [][2]string{{"pbcmpl.(*headerInfo).GetHeaderSize", "HeaderSize"}, {"pbcmpl.(*headerInfo).GetBodySize", "BodySize"}} {
+		fn := fns[acc[0]]
+		if fn == nil {
+			continue
+		}
+		okA := len(returnsOf(fn)) > 0
+		for _, ret := range returnsOf(fn) {
+			_, f, ok := asFieldLoad(ret.Results[0])
+			if !ok || f != acc[1] {
+				okA = false
+			}
+		}
+		r.Check(okA, "R-FIELD", acc[0], w.Pos(fn.Pos()), acc[0]+" does not return the "+acc[1]+" field itself on every path", "returns int64(h."+acc[1]+")")
+	}
 	r.Rule("R-HDRREAD", "ReadHeader fills a buffer of exactly fixedSize bytes with io.ReadFull from its reader and returns its count and error")
 
 	// ---- R-TAINT
@@ -495,7 +512,7 @@ func init() {
 		Explain: "E3 I/O discipline for pbcmpl (DESIGN.md 5/C07): taint of the header's size fields to allocation sinks (found defect D3), error propagation at every error-returning call of the six entry points, the header-size gate and its failing edge, decode only after both reads succeeded and on the bytes read, byte accounting at every return, write order. Decided on all paths, hence for every cut point / failing write offset / header content; which io error value ReadFull/CopyN produce for which cut is their documented contract (trusted).",
 		NotDec:  []string{"which io error (EOF vs ErrUnexpectedEOF) the io helpers return for which cut point (library contract)", "that the partial bytes actually reached the writer (writer contract)"},
 		Trusted: []string{"go/ssa construction", "io.ReadFull / io.CopyN / io.Writer contracts", "github.com/openacid/errors.WithStack is nil-preserving and keeps the cause"},
-		Quick:   []Config{cfgDefault}, Thorough: []Config{cfgDefault, cfg386},
+		Quick:   []Config{cfgDefault, cfg386}, Thorough: []Config{cfgDefault, cfg386},
 		Run: runC07,
 	})
 }
